@@ -107,11 +107,11 @@ def build_and_run(name, kind="fortran", yaml_edit=None, extra_argv=(), make_vars
             shutil.copytree(gen, keep, dirs_exist_ok=True)
         if rp.returncode != 0:
             return dict(stage="run", detail="exit status %s: %s" % (rp.returncode, out[-1500:]), asserts=fr[0] if fr else 0,
-                        failed=fr[1] if fr else 0, output=out[-4000:])
+                        failed=fr[1] if fr else 0, output=out[-12000:])
         if fr is not None and fr[1] != 0:
             fails = [l for l in out.split("\n") if "xpected" in l or "got" in l.lower() or "FAIL" in l]
             return dict(stage="run", detail="%d of %d upstream assertions fail: %s" % (fr[1], fr[0], " | ".join(fails[:6])),
-                        asserts=fr[0], failed=fr[1], output=out[-4000:])
+                        asserts=fr[0], failed=fr[1], output=out[-12000:])
         return dict(stage="ok", detail="", asserts=fr[0] if fr else 0, failed=0, output=out[-2000:])
     finally:
         shutil.rmtree(top, ignore_errors=True)
